@@ -45,6 +45,49 @@ func runC10(c *Ctx) {
 		return
 	}
 	inArm := func(b *ssa.BasicBlock) bool { return b == pos || pos.Dominates(b) }
+	// helpers of the position arm: driver functions called from nowhere but the arm (or such helpers)
+	armHelper := map[*ssa.Function]bool{}
+	for changed := true; changed; {
+		changed = false
+		for _, fn := range c.P.AllFuncs {
+			if fn.Pkg != d.process.Pkg || fn.Blocks == nil || fn == d.process || armHelper[fn] || fn.Parent() != nil {
+				continue
+			}
+			sites, all := 0, true
+			for _, g := range c.P.AllFuncs {
+				if g.Blocks == nil {
+					continue
+				}
+				for _, b := range g.Blocks {
+					for _, ins := range b.Instrs {
+						if call, ok := ins.(ssa.CallInstruction); ok && call.Common().StaticCallee() == fn {
+							sites++
+							if !(g == d.process && inArm(b)) && !armHelper[g] {
+								all = false
+							}
+						}
+					}
+				}
+			}
+			if sites > 0 && all {
+				armHelper[fn] = true
+				changed = true
+			}
+		}
+	}
+
+	// the blocks that make up the position arm: its blocks in the command loop and the blocks of its helpers
+	var armBlocks []*ssa.BasicBlock
+	for _, b := range d.process.Blocks {
+		if inArm(b) {
+			armBlocks = append(armBlocks, b)
+		}
+	}
+	for _, fn := range c.P.AllFuncs {
+		if armHelper[fn] {
+			armBlocks = append(armBlocks, fn.Blocks...)
+		}
+	}
 
 	// R10-owner
 	var bad []string
@@ -64,7 +107,7 @@ func runC10(c *Ctx) {
 					continue
 				}
 				nCalls++
-				if fn != d.process || !inArm(b) {
+				if !(fn == d.process && inArm(b)) && !armHelper[fn] {
 					bad = append(bad, fmt.Sprintf("%s called from %s at %s", f.Name(), c.P.FuncName(fn), c.pos(ins.Pos())))
 				}
 			}
@@ -91,7 +134,7 @@ func runC10(c *Ctx) {
 			arm = d.armOf(st.Block())
 		}
 		switch {
-		case fs.Fn == d.process && arm == "position":
+		case fs.Fn == d.process && arm == "position", armHelper[fs.Fn]:
 			stores = append(stores, lpStore{st, clear})
 		case fs.Fn == d.process && arm == "ucinewgame" && clear:
 		default:
@@ -162,10 +205,7 @@ func runC10(c *Ctx) {
 	}
 	commitBad := ""
 	nMoveCalls := 0
-	for _, b := range d.process.Blocks {
-		if !inArm(b) {
-			continue
-		}
+	for _, b := range armBlocks {
 		for _, ins := range b.Instrs {
 			call, ok := ins.(ssa.CallInstruction)
 			if !ok {
@@ -191,9 +231,9 @@ func runC10(c *Ctx) {
 		}
 		// it must come after the move loop: the store's block is a loop exit (rangeindex.done) or dominated by one
 		after := false
-		for _, b := range d.process.Blocks {
-			if !inArm(b) {
-				continue
+		for _, b := range armBlocks {
+			if b.Parent() != s.st.Block().Parent() {
+				continue // the moves this store follows are those of its own function
 			}
 			for _, ins := range b.Instrs {
 				if call, ok := ins.(ssa.CallInstruction); ok && call.Common().StaticCallee() == d.engMove {
@@ -316,10 +356,7 @@ func runC10(c *Ctx) {
 
 	// R10-tokens
 	n := 0
-	for _, b := range d.process.Blocks {
-		if !inArm(b) {
-			continue
-		}
+	for _, b := range armBlocks {
 		for _, ins := range b.Instrs {
 			call, ok := ins.(ssa.CallInstruction)
 			if !ok || call.Common().StaticCallee() != d.engMove {
